@@ -1363,6 +1363,32 @@ check(const json& c)
   VF_CHECK(o3 != nullptr, "third generation refused: ", id, " :: ", why);
   VF_CHECK(o3->parameter_info() == t2, "third print differs: ", id);
 
+  // ---- (ext5) how the printed text ENDS must not matter: KeyParser "reads input line by line and parses each line separately.
+  // It allows for '\r' at the end of the line (as in files originating in DOS/Windows)"; the last line (the stop key of the
+  // object) is a line whether or not an end-of-line character follows it.
+  {
+    std::string te = t1;
+    while (!te.empty() && (te.back() == '\n' || te.back() == '\r'))
+      te.pop_back();
+    auto oe = parse_text(r, name, te, why);
+    VF_CHECK(oe != nullptr, "the printed text without its final end-of-line is refused: ", id, " :: ", why, "\n--- text:\n", te, "<end of text>");
+    VF_CHECK(oe->parameter_info() == t1, "the printed text without its final end-of-line gives another object: ", id, "\n--- printed:\n", t1, "\n--- re-parsed print:\n",
+             oe->parameter_info());
+    std::string tc;
+    for (char ch : t1)
+      {
+        if (ch == '\n')
+          tc += "\r\n";
+        else
+          tc += ch;
+      }
+    auto oc = parse_text(r, name, tc, why);
+    VF_CHECK(oc != nullptr, "the printed text with \\r\\n line ends is refused: ", id, " :: ", why);
+    VF_CHECK(oc->parameter_info() == t1, "the printed text with \\r\\n line ends gives another object: ", id, "\n--- printed:\n", t1, "\n--- re-parsed print:\n",
+             oc->parameter_info());
+    stats().cls("printed text re-parsed without final end-of-line and with \\r\\n line ends");
+  }
+
   // ---- keyword spelling noise must not change anything (documented matching rule)
   const long noise = c["noise"].get<long>();
   if (noise != 0)
